@@ -70,6 +70,18 @@ Theorem tbuf_round_consistent : forall s ps1 ps2,
 Proof. exact Proofs.tbuf_round_proof. Qed.
 Print Assumptions tbuf_round_consistent.
 
+(* at a quiescent point (no producer step in between) size() and empty() describe exactly
+   what consume() then returns - what the extracted round_exact checks on the rounds the
+   harness records while all producers are parked *)
+Theorem tbuf_quiescent_round : forall s,
+  let s' := tb_run s [TCons KSize; TCons KEmpty; TCons KConsume] in
+  let b := ts_buf s in
+  ts_obs s' = ts_obs s ++ [TONum (N.of_nat (length b)); TOBool (match b with [] => true | _ => false end)]
+  /\ ts_batches s' = ts_batches s ++ [b] /\ ts_buf s' = []
+  /\ round_exact (N.of_nat (length b), match b with [] => true | _ => false end, b) = true.
+Proof. exact Proofs.tbuf_quiescent_round_proof. Qed.
+Print Assumptions tbuf_quiescent_round.
+
 (* the acceptance function run (extracted) on the histories recorded by the stress harness:
    accepted histories are exactly the complete histories of the model *)
 Theorem tbuf_accept_sound : forall progs bs,
